@@ -373,7 +373,7 @@ func c16Binary() vh.Unit {
 						return
 					}
 					r, derr := vh.DecodeReply(body)
-					wsBody, werr := ws.Call(req, 3*time.Second)
+					wsBody, werr := ws.Call(req, time.Minute)
 					rw, derr2 := vh.DecodeReply(wsBody)
 					u.R.Evaluations += 2
 					u.R.States++
